@@ -67,12 +67,16 @@ type Ev struct {
 
 // Step is one event of the schedule.
 type Step struct {
-	K    string `json:"k"`              // block | epoch | status | move | movelast | fail
+	K    string `json:"k"`              // block | epoch | status | move | movelast | fail | restart
 	Skip uint64 `json:"skip,omitempty"` // block: number = last processed + skip + 1
 	Evs  []Ev   `json:"evs,omitempty"`
 	Max  uint   `json:"max,omitempty"` // epoch / status: MaxCertSize during this iteration (0 = no limit)
-	ID   uint64 `json:"id,omitempty"`  // move: certificate (order of acceptance by the Agglayer, from 0)
-	St   int    `json:"st,omitempty"`  // move: target status 0 Pending 1 Proven 2 Candidate 3 InError 4 Settled
+	// epoch / status with Crash: the process dies between "SendCertificate accepted" and the local save (the save is
+	// made to fail), then restarts on the same database. restart with Lost: the certificate database is gone.
+	Crash bool   `json:"crash,omitempty"`
+	Lost  bool   `json:"lost,omitempty"`
+	ID    uint64 `json:"id,omitempty"` // move: certificate (order of acceptance by the Agglayer, from 0)
+	St    int    `json:"st,omitempty"` // move: target status 0 Pending 1 Proven 2 Candidate 3 InError 4 Settled
 }
 
 // Seed is a certificate that exists before the sender starts (a node restarted on its database, or a table rebuilt
@@ -88,6 +92,7 @@ type Seed struct {
 
 type In struct {
 	Retry      bool   `json:"retry"`       // RetryCertAfterInError
+	AggPrev    bool   `json:"agg_prev"`    // the Agglayer's certificate headers carry prev_local_exit_root
 	StartBlock uint64 `json:"start_block"` // StartL2Block
 	Pre        []Step `json:"pre"`         // blocks synced before the sender starts (the last one is >= StartBlock)
 	Seeds      []Seed `json:"seeds,omitempty"`
@@ -140,7 +145,8 @@ type StepObs struct {
 	Subs   []SubObs `json:"subs"`
 	Rows   []RowObs `json:"rows"`
 	Synced uint64   `json:"synced"`
-	Err    string   `json:"err,omitempty"` // class of the error the loop recorded (information only)
+	Err    string   `json:"err,omitempty"`   // class of the error the loop recorded (information only)
+	Recov  string   `json:"recov,omitempty"` // restart / recovery attempt: "ok" | "refused"
 	BlkErr string   `json:"blk_err,omitempty"`
 }
 type Out struct {
@@ -166,6 +172,7 @@ type aggCert struct {
 type fakeAgg struct {
 	certs    []*aggCert
 	failNext bool
+	withPrev bool // headers carry prev_local_exit_root
 	received []SubObs
 }
 
@@ -240,9 +247,13 @@ func (f *fakeAgg) SendCertificate(_ context.Context, c *agglayertypes.Certificat
 
 func (f *fakeAgg) header(id uint64) *agglayertypes.CertificateHeader {
 	c := f.certs[id]
-	prev := c.prevLER
-	return &agglayertypes.CertificateHeader{NetworkID: 1, Height: c.height, CertificateID: idHash(id),
-		PreviousLocalExitRoot: &prev, NewLocalExitRoot: c.newLER, Status: c.status, Metadata: c.meta}
+	h := &agglayertypes.CertificateHeader{NetworkID: 1, Height: c.height, CertificateID: idHash(id),
+		NewLocalExitRoot: c.newLER, Status: c.status, Metadata: c.meta}
+	if f.withPrev {
+		prev := c.prevLER
+		h.PreviousLocalExitRoot = &prev
+	}
+	return h
 }
 func (f *fakeAgg) GetCertificateHeader(_ context.Context, h common.Hash) (*agglayertypes.CertificateHeader, error) {
 	if f.fail() {
@@ -491,13 +502,17 @@ func run(in In, n int) (out Out) {
 		startLER = r.Hash
 	}
 
-	storage, err := aggsenderdb.NewAggSenderSQLStorage(logger, aggsenderdb.AggSenderSQLStorageConfig{
-		DBPath: filepath.Join(dir, "aggsender.sqlite"), KeepCertificatesHistory: true})
-	if err != nil {
-		panic(err)
+	dbPath := filepath.Join(dir, "aggsender.sqlite")
+	openStorage := func() *aggsenderdb.AggSenderSQLStorage {
+		st, err := aggsenderdb.NewAggSenderSQLStorage(logger, aggsenderdb.AggSenderSQLStorageConfig{DBPath: dbPath})
+		if err != nil {
+			panic(err)
+		}
+		return st
 	}
-	defer storage.VerifCloseC13()
-	agg := &fakeAgg{}
+	storage := openStorage()
+	defer func() { storage.VerifCloseC13() }()
+	agg := &fakeAgg{withPrev: in.AggPrev}
 	out.Seeds = []RowObs{}
 	for k, sd := range in.Seeds {
 		prevLER, newLER := emptyLER, rootUpTo(sd.To)
@@ -538,6 +553,58 @@ func run(in In, n int) (out Out) {
 		out.StartLER = hlib.Hex(startLER[:])
 	}
 
+	storeFault := func(on bool) {
+		q := "DROP TRIGGER IF EXISTS verif_fault"
+		if on {
+			q = "CREATE TRIGGER verif_fault BEFORE INSERT ON certificate_info BEGIN SELECT RAISE(ABORT, 'verif fault'); END"
+		}
+		d, err := sql.Open("sqlite3", "file:"+dbPath+"?_journal_mode=WAL")
+		if err != nil {
+			panic(err)
+		}
+		if _, err := d.Exec(q); err != nil {
+			panic(err)
+		}
+		d.Close()
+	}
+	recovering := false
+	// one attempt of the start-up reconciliation on the current objects ("ok" / "refused")
+	attempt := func() string {
+		agg.failNext = false // the scripted failure does not outlive the old process / is not part of the recovery script
+		if err := v.VerifRecoverOnceC02(ctx); err != nil {
+			recovering = true
+			return "refused"
+		}
+		recovering = false
+		return "ok"
+	}
+	// process restart: new objects on the same (or an empty) certificate database, then the start-up reconciliation
+	restart := func(lost bool) string {
+		storage.VerifCloseC13()
+		if lost {
+			for _, sfx := range []string{"", "-wal", "-shm", "-journal"} {
+				os.Remove(dbPath + sfx)
+			}
+		}
+		storage = openStorage()
+		v = aggsender.NewVerifAggSenderC02(logger, storage, agg, bs, fakeL1{}, fakeLER{startLER}, signer{}, in.Retry, in.StartBlock)
+		return attempt()
+	}
+	tick := func(s Step, epoch bool, so *StepObs) {
+		switch {
+		case recovering: // the process is still inside CheckInitialStatus
+			so.Recov = attempt()
+		case s.Crash:
+			storeFault(true)
+			v.VerifStepC02(ctx, epoch, s.Max)
+			so.Err = errClass(v.VerifLastErrorC02())
+			storeFault(false)
+			so.Recov = restart(false)
+		default:
+			v.VerifStepC02(ctx, epoch, s.Max)
+			so.Err = errClass(v.VerifLastErrorC02())
+		}
+	}
 	for _, s := range in.Steps {
 		agg.received = nil
 		so := StepObs{}
@@ -545,11 +612,11 @@ func run(in In, n int) (out Out) {
 		case "block":
 			so.BlkErr = processBlock(s)
 		case "epoch":
-			v.VerifStepC02(ctx, true, s.Max)
-			so.Err = errClass(v.VerifLastErrorC02())
+			tick(s, true, &so)
 		case "status":
-			v.VerifStepC02(ctx, false, s.Max)
-			so.Err = errClass(v.VerifLastErrorC02())
+			tick(s, false, &so)
+		case "restart":
+			so.Recov = restart(s.Lost)
 		case "move":
 			agg.move(s.ID, s.St)
 		case "movelast": // the Agglayer moves the certificate it accepted last
@@ -561,18 +628,7 @@ func run(in In, n int) (out Out) {
 		case "storefault_on", "storefault_off":
 			// NOT part of the C02 schedule alphabet (storage faults belong to C13): used by hand-written probes only,
 			// to record what the loop does when saveCertificateToStorage gives up. Never generated.
-			q := "DROP TRIGGER IF EXISTS verif_fault"
-			if s.K == "storefault_on" {
-				q = "CREATE TRIGGER verif_fault BEFORE INSERT ON certificate_info BEGIN SELECT RAISE(ABORT, 'verif fault'); END"
-			}
-			d, err := sql.Open("sqlite3", "file:"+filepath.Join(dir, "aggsender.sqlite")+"?_journal_mode=WAL")
-			if err != nil {
-				panic(err)
-			}
-			if _, err := d.Exec(q); err != nil {
-				panic(err)
-			}
-			d.Close()
+			storeFault(s.K == "storefault_on")
 		default:
 			panic("bad step kind " + s.K)
 		}
